@@ -5,6 +5,7 @@ Case grammar (first token = operation; see harness/C04.cpp and ocaml/C04_driver.
   vector argument  = list `n x1 .. xn`
   block grid       = `GR` then per grid row `GC` and GC blocks `r c e11 .. erc`
 Output: matrix `M rows cols e11 e12 ..`, vector `V n e1 ..`, scalars as hex floats, booleans 0/1, `EXIT`.
+`m_show T` / `v_show L` print the object as Rows()/Columns()/operator[] (Size()/operator[]) see it; `v_at L i` is v[i].
 
 Call histories: `hist <op> <args>` is the operation <op> on operands that are not fresh: every matrix argument is
 `table k step_1 .. step_k`, every vector argument `list k step_1 .. step_k`; the steps are applied, in order, to the object
@@ -32,10 +33,17 @@ RULE = ("one case = one call of one spelling (or one law evaluated on the implem
 LEVEL_TEXT = ("Theorems (Coq/MathComp, every shape and every entry, over an arbitrary commutative ring; the exactness laws over any "
               "number type satisfying only x*y=y*x resp. x*1=x, x*0=0, 0+x=x, x+0=x): see evidence.coverage.theorems. The Gallina model "
               "(coq/C04_Model.v) is the term that is extracted and run against libphysica on every run (bit-identical), and every clause "
-              "of the property is also evaluated on the implementation's own results (S4).")
+              "of the property is also evaluated on the implementation's own results (S4), on fresh operands and on operands that "
+              "reached their state through a call history (Resize, Assign, element writes, copies, compound assignments; model "
+              "coq/C04_State.v, theorems C04_resize, C04_resize_accessors, C04_assign_set_copy, C04_vector_state: Resize/Assign "
+              "re-establish the class invariant from any previous state, so the storage-based accessors agree with Rows()/Columns()).")
 LEVEL_NOTE = ("Coq 8.16.1 + MathComp 1.15; theorems are axiom-free; hand-written model tied by differential correspondence (extraction with "
               "ExtrOcamlBasic only). Theorems are about exact arithmetic in a commutative ring / field (the exact values of the doubles); "
-              "the laws proved from commutativity / unit laws alone hold for IEEE doubles as numbers (==) for finite entries.")
+              "the laws proved from commutativity / unit laws alone hold for IEEE doubles as numbers (==) for finite entries. "
+              "S4 'to rounding' clauses (products, dot, trace, norm, cross orthogonality) use the standard model with gradual underflow "
+              "(relative 64 eps of the sum of |terms| plus 2^-1074 per product; sqrt(n 2^-1074) for a norm) over the whole double range, "
+              "and claim nothing where an intermediate can overflow (sum of |terms| >= DBL_MAX): Norm()/Dot() are the plain "
+              "accumulations, they return 0 / inf for entries below 1e-162 / above 1e154, which that model allows.")
 TOL = (1e-12, 0.0)
 TRUSTED = ["the int arguments of Matrix::Resize / Matrix::Assign are modelled by nat (only non-negative arguments are requested)",
            "unsigned int dimensions are modelled by nat (no wrap-around below 2^32 entries); int -> unsigned conversion of a negative Sub_Matrix index is modelled as 'not below any row count'"]
@@ -266,7 +274,7 @@ def nudge(rng, x, step):
 
 SPECIAL = ["identity", "scalar", "diag-trace-n", "diag-det-1", "diag-pm1", "diag-generic", "permutation", "unit-triangular",
            "identity-off", "identity-diag", "zero", "single", "ones", "sym-unit-diag", "full-trace-n", "negzero-identity",
-           "diag-norm-n", "nilpotent"]
+           "diag-norm-n", "nilpotent", "symmetric", "antisymmetric", "upper", "lower"]
 
 
 def special_square(rng, n, kind):
@@ -288,7 +296,7 @@ def special_square(rng, n, kind):
         ks = [rng.randint(-3, 3) for _ in range(n - 1)]; ks.append(-sum(ks)); rng.shuffle(ks); return diag([2.0 ** k for k in ks])
     if kind == "diag-pm1": return diag([rng.choice([1.0, -1.0]) for _ in range(n)])
     if kind == "diag-generic": return diag([entry(rng, "mixed") for _ in range(n)])
-    if kind == "diag-norm-n":      # sum of squares = n: entries 0 / sqrt-free combinations (2,0,0,0 for n = 4; else +-1 and a swap of two to 0 / ... )
+    if kind == "diag-norm-n":      # sum of squares = n without being +-1 throughout: (2,0,0,0) in place of four ones
         d = [rng.choice([1.0, -1.0]) for _ in range(n)]
         if n >= 4: i = rng.randrange(n - 3); d[i:i + 4] = [2.0, 0.0, 0.0, 0.0]
         rng.shuffle(d); return diag(d)
@@ -309,7 +317,7 @@ def special_square(rng, n, kind):
             M[i][j] = rng.choice([-1, 1]) * rng.choice(ABS_LADDER)
         return M
     if kind == "identity-diag":
-        M = diag([1.0] * n); M[rng.randrange(n)][rng.randrange(n) if False else 0] = M[0][0]
+        M = diag([1.0] * n)
         i = rng.randrange(n); M[i][i] = rng.choice([0.0, -1.0, 2.0, ulps(1.0, 1), ulps(1.0, -1), -0.0, 1e-300]); return M
     if kind == "zero": return Z()
     if kind == "single":
@@ -325,6 +333,16 @@ def special_square(rng, n, kind):
         M[n - 1][n - 1] = float(n) - sum(M[i][i] for i in range(n - 1)); return M
     if kind == "negzero-identity":
         return [[1.0 if i == j else -0.0 for j in range(n)] for i in range(n)]
+    if kind in ("symmetric", "antisymmetric", "upper", "lower"):      # random entries, structure only
+        ek = rng.choice(["mixed", "int", "dyadic"]); M = Z()
+        for i in range(n):
+            for j in range(i, n):
+                x = entry(rng, ek)
+                if kind == "symmetric": M[i][j] = M[j][i] = x
+                elif kind == "antisymmetric": M[i][j] = x if i != j else 0.0; M[j][i] = -x if i != j else 0.0
+                elif kind == "upper": M[i][j] = x
+                else: M[j][i] = x
+        return M
     if kind == "nilpotent":
         M = Z()
         for i in range(n - 1): M[i][i + 1] = dy() or 1.0
@@ -410,8 +428,11 @@ def generate(rng, tier):
     cs = []
     big = tier != "quick"
     L = 5 if big else 4
-    kinds = ["mixed", "mixed", "int", "unit"]
+    kinds = ["mixed", "mixed", "int", "unit", "scaled"]
     def K(): return rng.choice(kinds)
+    # operations whose reference is exact (one rounding per entry or none) also get the whole double range
+    xkinds = ["mixed", "int", "scaled", "wide", "wide", "tiny", "tiny", "huge"]
+    def KX(): return rng.choice(xkinds)
 
     def add(line, *tags): cs.append(Case(line, tags))
 
@@ -579,6 +600,153 @@ def generate(rng, tier):
     for n in range(1, 5):
         for i in range(0, n):
             add(f"block 2 2 {blk(i, i)} {blk(i, n - i)} 2 {blk(n - i, i)} {blk(n - i, n - i, 'mixed')}", "block", "qr-shape")
+    # ---- the whole double range (subnormals, the neighbourhood of DBL_MIN, 1e+-300, DBL_MAX) through every spelling
+    for _ in range(3000 if big else 400):
+        m, n = rng.randint(1, 5), rng.randint(1, 5); k = KX(); A = rmat(rng, m, n, k)
+        r = rng.random()
+        if r < 0.22: add(f"{rng.choice(SUM_OPS)} {mtab(A)} {mtab(rmat(rng, m, n, KX()))}", "sum", "extreme-range")
+        elif r < 0.40:
+            sc = entry(rng, rng.choice(["mixed", "wide", "tiny", "huge"])) or 2.0
+            op = rng.choice(["m_prod_s", "m_op_mul_s", "m_div", "m_op_div", "s_mul_m"])
+            add(f"s_mul_m {hx(sc)} {mtab(A)}" if op == "s_mul_m" else f"{op} {mtab(A)} {hx(sc)}", "scalar", "extreme-range")
+        elif r < 0.50: add(f"{rng.choice(['transpose', 'law_trtr', 'law_mulid', 'm_show'])} {mtab(A)}", "law", "extreme-range")
+        elif r < 0.62:
+            B = rmat(rng, n, rng.randint(1, 4), KX())
+            add(f"{rng.choice(['m_prod', 'm_op_mul', 'law_trprod'])} {mtab(A)} {mtab(B)}", "product", "extreme-range")
+        elif r < 0.72:
+            v = rvec(rng, n, KX())
+            add(f"{rng.choice(['m_prod_v', 'm_op_mul_v', 'law_matvec'])} {mtab(A)} {flist(v)}", "mat-vec", "extreme-range")
+            add(f"{rng.choice(['v_mul_m', 'law_vecmat'])} {flist(rvec(rng, m, KX()))} {mtab(A)}", "vec-mat", "extreme-range")
+        elif r < 0.80: add(f"m_norm {mtab(A)}", "norm", "extreme-range")
+        elif r < 0.86: add(f"trace {mtab(rmat(rng, n, n, k))}", "trace", "extreme-range")
+        elif r < 0.93: add(f"sub_matrix {mtab(A)} {rng.randrange(m)} {rng.randrange(n)}", "sub_matrix", "extreme-range")
+        else:
+            add(f"return_row {mtab(A)} {rng.randrange(m)}", "return_row", "extreme-range"); add(f"return_column {mtab(A)} {rng.randrange(n)}", "return_column", "extreme-range")
+    for _ in range(1500 if big else 160):
+        n = rng.randint(1, 6); k = KX(); u, v = rvec(rng, n, k), rvec(rng, n, KX())
+        op = rng.choice(VSUM_OPS + ["v_dot", "v_op_mul", "law_dotouter", "outer", "v_eq", "v_norm", "v_scale", "v_div", "s_mul_v", "v_show"])
+        sc = entry(rng, rng.choice(["mixed", "wide", "tiny", "huge"])) or 2.0
+        if op in ("v_norm", "v_show"): add(f"{op} {flist(u)}", "vector", "extreme-range")
+        elif op in ("v_scale", "v_div"): add(f"{op} {flist(u)} {hx(sc)}", "vector", "extreme-range")
+        elif op == "s_mul_v": add(f"s_mul_v {hx(sc)} {flist(u)}", "vector", "extreme-range")
+        else: add(f"{op} {flist(u)} {flist(v)}", "vector", "extreme-range")
+    for _ in range(300 if big else 30):
+        k = rng.choice(["scaled", "scaled", "tiny", "wide"])      # cross products: scaled operands; tiny / wide ones for the component formula
+        add(f"{'law_cross' if k == 'scaled' else 'v_cross'} {flist(rvec(rng, 3, k))} {flist(rvec(rng, 3, k))}", "vector", "cross", "extreme-range")
+    # ---- predicates: exact instances and single-entry near misses along the ladders (absolute sizes from the smallest
+    #      positive double up to DBL_MAX where the entry is zero, 1 .. 2^33 ulps where it is not)
+    for rep in range(4 if big else 1):
+        for step in range(len(ABS_LADDER)):
+            for kind in ("sym", "anti", "diag", "zero"):
+                n = rng.randint(2, 6 if big else 5)
+                S = [[0.0] * n for _ in range(n)]
+                for i in range(n):
+                    for j in range(i, n):
+                        x = entry(rng, rng.choice(["int", "mixed", "wide"]))
+                        if kind == "sym": S[i][j] = S[j][i] = x
+                        elif kind == "anti": S[i][j] = x if i != j else 0.0; S[j][i] = -x if i != j else 0.0
+                        elif kind == "diag": S[i][j] = x if i == j else 0.0
+                i, j = rng.randrange(n), rng.randrange(n)
+                if kind != "anti" or rng.random() < 0.7:
+                    while i == j: j = rng.randrange(n)
+                S[i][j] = nudge(rng, S[i][j], step)
+                for op in ("symmetric", "antisymmetric", "diagonal"):
+                    add(f"{op} {mtab(S)}", "predicate", kind, "near-miss-ladder")
+            # operator== on operands that differ in one entry by the same rungs
+            m, n = rng.randint(1, 5), rng.randint(1, 5); A = rmat(rng, m, n, rng.choice(["int", "mixed", "wide"]))
+            B = [list(r_) for r_ in A]; i, j = rng.randrange(m), rng.randrange(n); B[i][j] = nudge(rng, B[i][j], step)
+            add(f"m_eq {mtab(A)} {mtab(B)}", "predicate", "near-miss-ladder")
+            u = rvec(rng, n, rng.choice(["int", "mixed", "wide"])); v = list(u); i = rng.randrange(n); v[i] = nudge(rng, v[i], step)
+            add(f"v_eq {flist(u)} {flist(v)}", "vector", "near-miss-ladder")
+    # ---- structured operands: every kind of SPECIAL as right and as left factor of a product with a rectangular partner, in
+    #      the laws, with vectors, and through the functions whose value they share with the unit / zero matrix
+    for rep in range(6 if big else 1):
+        for n in range(1, (7 if big else 6)):
+            for kind in SPECIAL:
+                S = special_square(rng, n, kind); m = rng.randint(1, 5); dk = rng.choice(["dyadic", "mixed", "int"])
+                A = rmat(rng, m, n, dk); B = rmat(rng, n, m, dk)
+                add(f"{rng.choice(['m_prod', 'm_op_mul'])} {mtab(A)} {mtab(S)}", "product", "structured", kind)
+                add(f"{rng.choice(['m_prod', 'm_op_mul'])} {mtab(S)} {mtab(B)}", "product", "structured", kind)
+                add(f"law_trprod {mtab(rmat(rng, m, n, dk))} {mtab(S)}", "law", "structured", kind)
+                if rng.random() < 0.5: add(f"law_trprod {mtab(S)} {mtab(rmat(rng, n, m, dk))}", "law", "structured", kind)
+                S2 = special_square(rng, n, rng.choice(SPECIAL))
+                add(f"{rng.choice(['m_prod', 'm_op_mul', 'law_trprod'])} {mtab(S)} {mtab(S2)}", "product", "structured", kind)
+                S3 = special_square(rng, n, kind)        # both factors of the same structure
+                add(f"{rng.choice(['m_prod', 'm_op_mul'])} {mtab(S)} {mtab(S3)}", "product", "structured", "same-structure", kind)
+                add(f"law_trprod {mtab(special_square(rng, n, kind))} {mtab(special_square(rng, n, kind))}", "law", "structured", "same-structure", kind)
+                v = rng.choice([special_vec(rng, n), rvec(rng, n, dk)])
+                add(f"{rng.choice(['m_prod_v', 'm_op_mul_v', 'law_matvec'])} {mtab(S)} {flist(v)}", "mat-vec", "structured", kind)
+                add(f"{rng.choice(['v_mul_m', 'law_vecmat'])} {flist(rng.choice([special_vec(rng, n), rvec(rng, n, dk)]))} {mtab(S)}", "vec-mat", "structured", kind)
+                op = rng.choice(["trace", "m_norm", "diagonal", "symmetric", "antisymmetric", "transpose", "law_mulid", "law_trtr"])
+                add(f"{op} {mtab(S)}", "structured", kind)
+                add(f"m_eq {mtab(S)} {mtab(special_square(rng, n, rng.choice(['identity', 'zero', kind])))}", "predicate", "structured", kind)
+                add(f"{rng.choice(SUM_OPS)} {mtab(rmat(rng, n, n, dk))} {mtab(S)}", "sum", "structured", kind)
+                if n > 1: add(f"sub_matrix {mtab(S)} {rng.randrange(n)} {rng.randrange(n)}", "sub_matrix", "structured", kind)
+    for _ in range(600 if big else 60):
+        n = rng.randint(1, 6); u, v = special_vec(rng, n), rng.choice([special_vec(rng, n), rvec(rng, n, "dyadic")])
+        add(f"{rng.choice(['v_dot', 'v_op_mul', 'law_dotouter', 'outer', 'v_eq'] + VSUM_OPS)} {flist(u)} {flist(v)}", "vector", "structured")
+        u3 = special_vec(rng, 3); add(f"law_cross {flist(u3)} {flist(rng.choice([u3, [-x for x in u3], special_vec(rng, 3)]))}", "vector", "cross", "structured")
+    # ---- call histories: the same operations on objects that reached their state through Resize / Assign / writes / copies /
+    #      compound assignments (and the constructors Matrix(r,c), Matrix(), Vector(n), Vector())
+    def HK(): return rng.choice(["int", "int", "mixed", "dyadic", "wide"])
+    for _ in range(2500 if big else 260):
+        k = HK(); ta, (R, C) = hist_mat(rng, rng.randint(1, 6), rng.randint(1, 6), k)
+        add(f"hist m_show {ta}", "history", "show")
+        add(f"hist m_eq {ta} {mtab(hist_value(ta))} 0", "history", "equals-fresh")
+        i, j = rng.randrange(R), rng.randrange(C)
+        add(f"hist return_row {ta} {rng.choice([i, i, R - 1, R])}", "history", "return_row")
+        add(f"hist sub_matrix {ta} {i} {j}", "history", "sub_matrix")
+        ops = rng.sample(["return_column", "delete_row", "delete_column", "m_at", "transpose", "law_trtr", "m_norm", "trace", "square",
+                          "symmetric", "diagonal", "sum", "sum", "sum-bad", "prod", "prod-left", "law_trprod", "law_mulid", "matvec", "vecmat",
+                          "law_matvec", "scalar", "again"], 4 if big else 3)
+        for op in ops:
+            if op in ("return_column", "delete_column"): add(f"hist {op} {ta} {rng.choice([j, C - 1, C])}", "history", op)
+            elif op == "delete_row": add(f"hist {op} {ta} {rng.choice([i, R])}", "history", op)
+            elif op == "m_at": add(f"hist m_at {ta} {rng.choice([i, R])} {j}", "history", op)
+            elif op in ("transpose", "law_trtr", "m_norm", "trace", "square", "symmetric", "diagonal", "law_mulid"): add(f"hist {op} {ta}", "history", op)
+            elif op == "sum":
+                tb = hist_mat(rng, rng.randint(1, 6), rng.randint(1, 6), k, final=(R, C))[0] if rng.random() < 0.5 else f"{mtab(rmat(rng, R, C, k))} 0"
+                add(f"hist {rng.choice(SUM_OPS)} {ta} {tb}" if rng.random() < 0.6 else f"hist {rng.choice(SUM_OPS)} {tb} {ta}", "history", "sum")
+            elif op == "sum-bad":
+                tb, shp = hist_mat(rng, rng.randint(1, 6), rng.randint(1, 6), k)
+                add(f"hist {rng.choice(SUM_OPS)} {ta} {tb}", "history", "sum", "conformable" if shp == (R, C) else "nonconformable")
+            elif op in ("prod", "law_trprod"):
+                q = rng.randint(1, 5)
+                tb = hist_mat(rng, rng.randint(1, 6), rng.randint(1, 6), k, final=(C, q))[0] if rng.random() < 0.5 else f"{mtab(rmat(rng, C, q, k))} 0"
+                add(f"hist {rng.choice(['m_prod', 'm_op_mul']) if op == 'prod' else op} {ta} {tb}", "history", "product")
+            elif op == "prod-left":
+                q = rng.randint(1, 5)
+                add(f"hist {rng.choice(['m_prod', 'm_op_mul'])} {mtab(rmat(rng, q, R, k))} 0 {ta}", "history", "product")
+            elif op in ("matvec", "law_matvec"):
+                tv = hist_vec(rng, rng.randint(1, 6), k, final=C)[0] if rng.random() < 0.6 else f"{flist(rvec(rng, C, k))} 0"
+                add(f"hist {rng.choice(['m_prod_v', 'm_op_mul_v']) if op == 'matvec' else op} {ta} {tv}", "history", "mat-vec")
+            elif op == "vecmat":
+                tv = hist_vec(rng, rng.randint(1, 6), k, final=R)[0] if rng.random() < 0.6 else f"{flist(rvec(rng, R, k))} 0"
+                add(f"hist {rng.choice(['v_mul_m', 'law_vecmat'])} {tv} {ta}", "history", "vec-mat")
+            elif op == "scalar":
+                sc = hx(entry(rng, "mixed") or 2.0); o_ = rng.choice(["m_prod_s", "m_op_mul_s", "m_div", "m_op_div", "s_mul_m"])
+                add(f"hist s_mul_m {sc} {ta}" if o_ == "s_mul_m" else f"hist {o_} {ta} {sc}", "history", "scalar")
+            elif op == "again":      # a second, longer history on the same start
+                t2, (R2, C2) = hist_mat(rng, R, C, k, steps=rng.randint(4, 7))
+                add(f"hist m_show {t2}", "history", "show"); add(f"hist return_row {t2} {rng.randrange(R2)}", "history", "return_row")
+                add(f"hist sub_matrix {t2} {rng.randrange(R2)} {rng.randrange(C2)}", "history", "sub_matrix")
+    for _ in range(1500 if big else 160):
+        k = HK(); tu, N = hist_vec(rng, rng.randint(1, 6), k)
+        add(f"hist v_show {tu}", "history", "vector", "show")
+        add(f"hist v_eq {tu} {flist(hist_value(tu, True))} 0", "history", "vector", "equals-fresh")
+        tv = hist_vec(rng, rng.randint(1, 6), k, final=N)[0] if rng.random() < 0.6 else f"{flist(rvec(rng, N, k))} 0"
+        op = rng.choice(VSUM_OPS + ["v_dot", "v_op_mul", "law_dotouter", "outer", "v_at", "v_norm", "v_scale", "v_div", "s_mul_v", "cross"])
+        sc = hx(entry(rng, "mixed") or 2.0)
+        if op == "v_at": add(f"hist v_at {tu} {rng.choice([rng.randrange(N), N - 1, N, N + 1])}", "history", "vector", "v_at")
+        elif op == "v_norm": add(f"hist v_norm {tu}", "history", "vector", "norm")
+        elif op in ("v_scale", "v_div"): add(f"hist {op} {tu} {sc}", "history", "vector", "scalar")
+        elif op == "s_mul_v": add(f"hist s_mul_v {sc} {tu}", "history", "vector", "scalar")
+        elif op == "cross":
+            t3 = hist_vec(rng, rng.randint(1, 6), k, final=3)[0]
+            add(f"hist {'law_cross' if k != 'wide' else 'v_cross'} {t3} {hist_vec(rng, rng.randint(1, 6), k, final=3)[0]}", "history", "vector", "cross")
+        else: add(f"hist {op} {tu} {tv}" if rng.random() < 0.7 else f"hist {op} {tv} {tu}", "history", "vector", op)
+    for n in range(1, 7):
+        add(f"v_at {flist(rvec(rng, n))} {n - 1}", "vector", "v_at"); add(f"v_at {flist(rvec(rng, n))} {n}", "vector", "v_at"); add(f"v_at {flist(rvec(rng, n))} {n + 3}", "vector", "v_at")
     return [c for c in cs if c is not None]
 
 
@@ -608,7 +776,7 @@ def operands(line):
             for _ in range(GR):
                 for _ in range(r.int()): b = r.block(); shp.append((b[0], b[1]))
             return shp, True
-        if op in ("identity", "mat_diag", "mat_fill", "v_scale", "v_div", "s_mul_v", "v_norm", "v_eq", "mat_ctor"): return [], True
+        if op in ("identity", "mat_diag", "mat_fill", "v_scale", "v_div", "s_mul_v", "v_norm", "v_eq", "mat_ctor", "v_at", "v_show"): return [], True
         return [shape(r.table())], True
     except Exception:
         return [], True
@@ -621,11 +789,21 @@ def nontrivial(c, io):
 
 # ---------------------------------------------------------------- S4 predicates
 def predicates(c, io):
+    try:
+        return _predicates(c, io)
+    except ExpectExit:
+        if io.startswith("EXIT"): return []
+        return [(f"{Rd(c.line).op}:guard:hist", "a step of the call history is not defined, yet the process went on")]
+    except Skip:
+        return []
+
+
+def _predicates(c, io):
     if io.startswith(("CRASH", "SANITIZER", "TIMEOUT", "HARNESSERR")): return []
     r = Rd(c.line); op = r.op; out = []
     ex = io.startswith("EXIT")
     o = Out(io)
-    def bad(clause, msg): out.append((f"{op}:{clause}", msg))
+    def bad(clause, msg): out.append((f"{op}:{clause}" + (":hist" if r.hist else ""), msg + (" (operands with a call history)" if r.hist else "")))
     def guard(should_exit, what):
         """returns True when the case is finished (exit expected or wrongly taken)"""
         if should_exit and not ex: bad("guard", f"{what}: the request is not defined, yet a result was returned"); return True
@@ -670,8 +848,10 @@ def predicates(c, io):
         A = r.table()
         if ex: bad("defined", "A*I terminated the process"); return out
         r1 = o.mat(); r2 = o.mat()
-        if (r1[0], r1[1]) != shape(A) or not meq(r1[2], A): bad("mul-identity", "A*I != A")
-        if (r2[0], r2[1]) != shape(A) or not meq(r2[2], A): bad("identity-mul", "I*A != A")
+        # the law is about numbers: an operand that already holds inf / nan (an earlier step overflowed) has inf*0 = nan in A*I
+        fin = all(math.isfinite(a) for row in A for a in row)
+        if (r1[0], r1[1]) != shape(A) or (fin and not meq(r1[2], A)): bad("mul-identity", "A*I != A")
+        if (r2[0], r2[1]) != shape(A) or (fin and not meq(r2[2], A)): bad("identity-mul", "I*A != A")
     elif op == "law_trtr":
         A = r.table()
         if ex: bad("defined", "transpose terminated the process"); return out
@@ -686,12 +866,12 @@ def predicates(c, io):
         else: A = r.table(); s = r.num()
         if ex: bad("defined", "scalar operation terminated the process"); return out
         div = op in ("m_div", "m_op_div")
-        expect_mat([[(a / s if s != 0 else (math.nan if a == 0 or math.isnan(a) else math.copysign(math.inf, a) * math.copysign(1, s))) if div else s * a for a in row] for row in A], "entrywise")
+        expect_mat([[fdiv(a, s) if div else s * a for a in row] for row in A], "entrywise")
     elif op in ("v_scale", "v_div", "s_mul_v"):
         if op == "s_mul_v": s = r.num(); v = r.list()
         else: v = r.list(); s = r.num()
         if ex: bad("defined", "scalar operation terminated the process"); return out
-        expect_vec([(a / s) if op == "v_div" else a * s for a in v], "entrywise")
+        expect_vec([fdiv(a, s) if op == "v_div" else a * s for a in v], "entrywise")
     elif op in ("m_prod_v", "m_op_mul_v", "v_mul_m"):
         if op == "v_mul_m": v = r.list(); A = r.table(); conf = len(v) == len(A)
         else: A = r.table(); v = r.list(); conf = len(v) == len(A[0])
@@ -727,8 +907,8 @@ def predicates(c, io):
     elif op == "v_norm":
         u = r.list()
         if ex: bad("defined", "terminated the process"); return out
-        d = o.num(); ref = math.sqrt(float(exact_sum([(a, a) for a in u])))
-        if not (abs(d - ref) <= 16 * EPS * len(u) * ref + 1e-300): bad("definition", f"norm {d!r} vs {ref!r}")
+        d = o.num()
+        if not close_norm(d, u): bad("definition", f"norm {d!r} is not sqrt(sum u_i^2) within rounding")
     elif op == "outer":
         u, v = r.list(), r.list()
         if ex: bad("defined", "terminated the process"); return out
@@ -744,9 +924,12 @@ def predicates(c, io):
         if op == "law_cross" and not out:
             for name, a in (("u", u), ("v", v)):
                 d = o.num()
-                # u.(u x v) expands into 6 products of three factors that cancel exactly
-                sc = sum(abs(a[i]) * sum(abs(x * y) for x, y in E[i]) for i in range(3))
-                if not (abs(d) <= 4 * SLACK * sc): bad("orthogonal", f"{name}.(u x v) = {d!r} is not zero within rounding ({4 * SLACK * sc!r})")
+                # u.(u x v) expands into 6 products of three factors that cancel exactly; every product may lose 2^-1075 to
+                # underflow (the inner ones are then multiplied by |a_i|); nothing is claimed when an intermediate can overflow
+                sc = sum(abs(Fraction(a[i])) * sum(abs(Fraction(x) * Fraction(y)) for x, y in E[i]) for i in range(3))
+                if sc >= OVF or any(math.isinf(t) or math.isnan(t) for t in u + v): continue
+                lim = Fraction(4 * SLACK) * sc + Fraction(DEN_MIN) * (2 * sum(abs(Fraction(t)) for t in a) + 4)
+                if math.isnan(d) or math.isinf(d) or not (abs(Fraction(d)) <= lim): bad("orthogonal", f"{name}.(u x v) = {d!r} is not zero within rounding ({float(lim)!r})")
     elif op == "trace":
         A = r.table()
         if guard(len(A) != len(A[0]), f"trace of a {shape(A)} matrix"): return out
@@ -755,8 +938,8 @@ def predicates(c, io):
     elif op == "m_norm":
         A = r.table()
         if ex: bad("defined", "terminated the process"); return out
-        d = o.num(); ref = math.sqrt(float(exact_sum([(a, a) for row in A for a in row])))
-        if not (abs(d - ref) <= 16 * EPS * len(A) * len(A[0]) * ref + 1e-300) and not math.isinf(ref): bad("definition", f"norm {d!r} vs sqrt(sum a_ij^2) = {ref!r}")
+        d = o.num()
+        if not close_norm(d, [a for row in A for a in row]): bad("definition", f"norm {d!r} is not sqrt(sum a_ij^2) within rounding")
     elif op in ("square", "symmetric", "antisymmetric", "diagonal"):
         A = r.table(); m, n = shape(A)
         if ex: bad("defined", "terminated the process"); return out
@@ -795,6 +978,18 @@ def predicates(c, io):
         A = r.table(); i, j = r.int(), r.int()
         if guard(i >= len(A), f"M[{i}] of a matrix with {len(A)} rows"): return out
         if not feq(o.num(), A[i][j]): bad("definition", "M[i][j] is not the entry")
+    elif op == "v_at":
+        v = r.list(); i = r.int()
+        if guard(not (0 <= i < len(v)), f"v[{i}] of a vector of size {len(v)}"): return out
+        if not feq(o.num(), v[i]): bad("definition", "v[i] is not the component")
+    elif op == "m_show":
+        A = r.table()
+        if ex: bad("defined", "terminated the process"); return out
+        expect_mat(A, "state")
+    elif op == "v_show":
+        v = r.list()
+        if ex: bad("defined", "terminated the process"); return out
+        expect_vec(v, "state")
     elif op == "identity":
         n = r.int()
         if ex: bad("defined", "terminated the process"); return out
